@@ -47,6 +47,25 @@ Theorem C17_reduceVertices_is_a_sequence_of_validated_shortcuts :
      fst (reduce_vertices St mv range_of p maxSteps maxEmpty tape d) = p).
 Proof. exact reduce_vertices_is_shortcuts. Qed.
 
+(* PathSimplifier::collapseCloseVertices as a whole (PathModel.collapse_close: the distance table keyed by the states, the
+   scan for the closest open pair, entries set to infinity after a rejected motion, both counters): again a sequence of
+   accepted vertex shortcuts, and the pair tried in each round is an open pair at least as close as every other open pair *)
+Theorem C17_collapseCloseVertices_is_a_sequence_of_validated_shortcuts :
+  forall (St : Type) (mv : St -> St -> bool) (dist : St -> St -> Z) (steq : St -> St -> bool) p maxSteps maxEmpty d,
+  exists ijs, fst (collapse_close St mv dist steq p maxSteps maxEmpty d) = shortcuts St mv p ijs d /\
+    (snd (collapse_close St mv dist steq p maxSteps maxEmpty d) = false -> fst (collapse_close St mv dist steq p maxSteps maxEmpty d) = p).
+Proof. exact collapse_close_is_shortcuts. Qed.
+Theorem C17_collapse_tries_a_closest_open_pair :
+  forall (St : Type) (dist : St -> St -> Z) (steq : St -> St -> bool) p blocked d,
+  match cc_best St dist steq p blocked d with
+  | Some ((a, b), v) => In (a, b) (cc_pairs (length p)) /\ cc_entry St dist steq blocked (nth a p d) (nth b p d) = Some v /\
+      (forall a' b' v', In (a', b') (cc_pairs (length p)) -> cc_entry St dist steq blocked (nth a' p d) (nth b' p d) = Some v' -> v <= v')
+  | None => forall a' b', In (a', b') (cc_pairs (length p)) -> cc_entry St dist steq blocked (nth a' p d) (nth b' p d) = None
+  end.
+Proof. exact cc_best_spec. Qed.
+
+Print Assumptions C17_collapseCloseVertices_is_a_sequence_of_validated_shortcuts.
+Print Assumptions C17_collapse_tries_a_closest_open_pair.
 Print Assumptions C17_reduceVertices_is_a_sequence_of_validated_shortcuts.
 Print Assumptions C17_interpolate_exact_count.
 Print Assumptions C17_interpolate_noop_when_fewer_requested.
@@ -67,4 +86,10 @@ Example C17_reduce_nonvacuous :
   rv_run 8 0 0 1 2 [(0, 3); (3, 6); (2, 7)]%nat [(0, 64); (40, 64); (30, 64); (60, 64); (16, 64); (63, 64); (1, 64); (2, 64)] = ([0; 3; 4; 5; 6; 7]%nat, true) /\
   rv_run 8 0 0 1 2 [(0, 3); (3, 6); (2, 7)]%nat [(60, 64); (1, 64); (60, 64); (1, 64)] = ([0; 1; 2; 7]%nat, true) /\
   rv_run 8 0 0 1 2 []%nat [(60, 64); (1, 64); (60, 64); (1, 64)] = ([0; 1; 2; 3; 4; 5; 6; 7]%nat, false).
+Proof. vm_compute. repeat split; reflexivity. Qed.
+(* collapseCloseVertices on 7 vertices at coordinates 0 10 3 12 4 20 1: the closest non-adjacent pair is (0,6) (distance 1) *)
+Example C17_collapse_nonvacuous :
+  cc_run [0; 10; 3; 12; 4; 20; 1] 0 0 [(2,4); (0,6); (1,3)]%nat = ([0; 6]%nat, true) /\
+  cc_run [0; 10; 3; 12; 4; 20; 1] 0 0 [(2,4); (1,3)]%nat = ([0; 1; 2; 4; 5; 6]%nat, true) /\
+  cc_run [0; 10; 3; 12; 4; 20; 1] 0 0 []%nat = ([0; 1; 2; 3; 4; 5; 6]%nat, false).
 Proof. vm_compute. repeat split; reflexivity. Qed.
